@@ -46,8 +46,23 @@ DEFAULTS = {'int': 3, 'str': 'd', 'float': 2.5}
 # ('v', 'T') | ('c', 'int') | ('list', a) | ('opt', a) | ('dict', a) | ('tup', a, b)
 
 
+_BOX: t.List[t.Any] = []
+
+
+def box() -> t.Any:
+    """A generic pane dataclass used as a *field type* of the generated classes: Box[X] holds one X."""
+    if not _BOX:
+        import pane
+        import types as _types
+        BT = t.TypeVar('BT')
+        _BOX.append(_types.new_class('Box', (pane.PaneBase, t.Generic[BT]), {}, lambda ns: ns.update({'__annotations__': {'v': BT}})))
+    return _BOX[0]
+
+
 def ast_build(a: t.Any) -> t.Any:
     k = a[0]
+    if k == 'gen':
+        return box()[ast_build(a[1])]
     if k == 'v':
         return VARS[a[1]]
     if k == 'c':
@@ -90,6 +105,8 @@ def ast_of(ty: t.Any) -> t.Any:
     for (n, c) in CONCRETE.items():
         if ty is c:
             return ('c', n)
+    if isinstance(ty, type) and ty.__dict__.get('__origin__') is (_BOX[0] if _BOX else None) and _BOX:
+        return ('gen', ast_of(next(iter(ty.__dict__['__pane_boundvars__'].values()))))
     o, args = t.get_origin(ty), t.get_args(ty)
     if o is list:
         return ('list', ast_of(args[0]))
@@ -106,6 +123,8 @@ def ast_render(a: t.Any) -> str:
     k = a[0]
     if k in ('v', 'c'):
         return a[1]
+    if k == 'gen':
+        return f"Box[{ast_render(a[1])}]"
     if k == 'list':
         return f"List[{ast_render(a[1])}]"
     if k == 'opt':
@@ -122,6 +141,9 @@ def ast_value(a: t.Any, good: bool) -> t.Tuple[bool, t.Any]:
         return (good, {'anything': 1})
     if k == 'c':
         return (True, GOOD[a[1]] if good else BAD[a[1]])
+    if k == 'gen':
+        (d, x) = ast_value(a[1], good)
+        return (d, {'v': x})
     if k == 'list':
         (d, x) = ast_value(a[1], good)
         return (d, [x])
@@ -141,6 +163,8 @@ def ast_default(a: t.Any) -> t.Tuple[str, t.Any]:
         return ('value', DEFAULTS[a[1]])
     if k in ('v', 'opt'):
         return ('value', None)
+    if k == 'gen':
+        return ('value', None)
     if k == 'list':
         return ('factory', [])
     if k == 'dict':
@@ -155,8 +179,9 @@ leaf_c = st.sampled_from(['int', 'str', 'float']).map(lambda n: ('c', n))
 
 def type_asts(vars_: t.Sequence[str]) -> st.SearchStrategy[t.Any]:
     leaf = st.one_of(leaf_c, st.sampled_from(list(vars_)).map(lambda n: ('v', n))) if vars_ else leaf_c
+    gen = st.tuples(st.just('gen'), leaf)
     return st.one_of(leaf, leaf, st.tuples(st.just('list'), leaf), st.tuples(st.just('opt'), leaf), st.tuples(st.just('dict'), leaf),
-                     st.tuples(st.just('tup'), leaf, leaf))
+                     st.tuples(st.just('tup'), leaf, leaf), gen, st.tuples(st.just('list'), gen))
 
 
 FIELD_POOL = ['a', 'b', 'c', 'd', 'e', 'f_long', 'g_two', 'h']
@@ -493,6 +518,8 @@ def check(prog: t.Any, ctx: Ctx) -> None:
             return v * mul if a[1] == 'int' else v
         if k_ == 'v':
             return v
+        if k_ == 'gen':
+            return ('box', expect_val(a[1], v['v']))
         if k_ == 'list':
             return [expect_val(a[1], v[0])]
         if k_ == 'opt':
@@ -511,7 +538,7 @@ def check(prog: t.Any, ctx: Ctx) -> None:
             return
         for (n, f) in ordered:
             want = expect_val(f['type'], good[n])
-            if getattr(inst, n) != want:
+            if not matches(getattr(inst, n), want):
                 ctx.fail('inherited-options', 'custom-handlers' if mul != 1 or custom else 'value', f"{src}\n-- field {n}: got {getattr(inst, n)!r}, expected {want!r} "
                          f"(class-level custom handlers in effect: {custom!r})")
                 return
@@ -554,7 +581,7 @@ def check(prog: t.Any, ctx: Ctx) -> None:
         return
     if k == 'ok':
         for ((n, f), v) in zip(pos, seq):
-            if getattr(inst2, n) != expect_val(f['type'], v):
+            if not matches(getattr(inst2, n), expect_val(f['type'], v)):
                 ctx.fail('field-order', 'tuple-layout', f"{src}\n-- positional data bound {n}={getattr(inst2, n)!r}, expected {expect_val(f['type'], v)!r}")
                 return
     # generic parameters are ignored by ==
@@ -562,6 +589,18 @@ def check(prog: t.Any, ctx: Ctx) -> None:
         (k, other) = outcome(lambda: classes[-1].make_unchecked(**{n: getattr(inst, n) for (n, _) in ordered}))
         if k == 'ok' and m.opts.get('eq', True) and not (other == inst):
             ctx.fail('eq-ignores-parameters', 'generic', f"{src}\n-- an instance of the subscripted class and one of the unsubscripted class with equal fields compare unequal")
+
+
+def matches(got: t.Any, want: t.Any) -> bool:
+    if isinstance(want, tuple) and len(want) == 2 and want[0] == 'box':
+        return hasattr(got, '__pane_info__') and type(got).__name__ == 'Box' and matches(got.v, want[1])
+    if isinstance(want, list):
+        return isinstance(got, list) and len(got) == len(want) and all(matches(g, w) for (g, w) in zip(got, want))
+    if isinstance(want, tuple):
+        return isinstance(got, tuple) and len(got) == len(want) and all(matches(g, w) for (g, w) in zip(got, want))
+    if isinstance(want, dict):
+        return isinstance(got, dict) and got.keys() == want.keys() and all(matches(got[k], w) for (k, w) in want.items())
+    return got == want and type(got) is type(want)
 
 
 def compare_signature(cls: t.Any, ordered: t.List[t.Tuple[str, t.Dict[str, t.Any]]], what: str) -> t.Optional[t.Tuple[str, str]]:
